@@ -52,8 +52,10 @@ Words(b, w) == [i \in 1..(Len(b) \div w) |-> SubSeq(b, (i - 1) * w + 1, i * w)]
 \* sequences as bags: same elements with the same multiplicities
 SameBag(s, t) ==
     /\ Len(s) = Len(t)
-    /\ \A i \in 1..Len(s) :
-          Cardinality({j \in 1..Len(s) : s[j] = s[i]}) = Cardinality({j \in 1..Len(t) : t[j] = s[i]})
+    /\ IF Cardinality(ToSet(s)) = Len(s)
+       THEN ToSet(t) = ToSet(s)              \* no repetitions (FIR maps): equal as sets, O(n log n)
+       ELSE \A i \in 1..Len(s) :
+               Cardinality({j \in 1..Len(s) : s[j] = s[i]}) = Cardinality({j \in 1..Len(t) : t[j] = s[i]})
 
 \* low-bit mask helpers (RPSI trailing bits)
 RECURSIVE Pow2(_)
